@@ -18,7 +18,7 @@ ASSUMPTIONS = ['data excludes the acknowledgement\'s own delimiters ~ * : ^ (tha
                'multi-interchange inputs share sender/receiver (which interchange a single 997 should address is not defined by the property)',
                'AK902 is compared only when GE01 is a canonical number; itemisation is checked tree => acknowledgement, not the converse',
                'a logged ERROR record counts as "reported"']
-REQUIRED_COUNTERS = ['docs:composite-and-one-of-its-components-wrong', 'envelope-discrepancies-checked', 'reader-findings-checked', 'docs:A', 'docs:B', 'docs:with-errors', 'docs:valid', 'ak2-checked', 'ak3-checked', 'ak4-checked', 'ak9-checked', 'acks:997', 'acks:999']
+REQUIRED_COUNTERS = ['injected-positions-checked', 'docs:two-elements-of-one-data-element-wrong-in-one-segment', 'docs:composite-and-one-of-its-components-wrong', 'envelope-discrepancies-checked', 'reader-findings-checked', 'docs:A', 'docs:B', 'docs:with-errors', 'docs:valid', 'ak2-checked', 'ak3-checked', 'ak4-checked', 'ak9-checked', 'acks:997', 'acks:999']
 MIN_CASES = {'quick': 700, 'thorough': 20000}
 WATCHDOG_S = {'quick': 1200, 'thorough': 7200}
 
@@ -313,6 +313,24 @@ def judge(ctx, text, case, full, sigs, mapname='?'):
         check_ack(ctx, text, res, case)
         check_reader_attribution(ctx, text, res, case)
         check_envelope_attribution(ctx, text, res, case)
+    for (seg_id, ep, sp, v) in case.get('expect_items', ()):
+        # ground truth of a directed family: this too-long value was put at this element / component, so the tree and the acknowledgement
+        # must both hold an element-level finding echoing it AT that position (the tree agreeing with the acknowledgement is not enough)
+        if any(e[0] == 'seg' and e[4] == seg_id for e in (res.errors or [])):
+            ctx.count('injected-positions:skipped-segment-has-segment-level-findings')      # (not located in the map: its elements are not validated at all)
+            continue
+        ctx.count('injected-positions-checked')
+        in_tree = [e for e in (res.errors or []) if e[0] == 'ele' and e[4] == seg_id and e[10] == v]
+        if not any(e[7] == ep and (e[8] or None) == (sp or None) for e in in_tree):
+            ctx.viol('injected-finding:not-at-its-element-position:tree', 'a wrong value is not reported at the element / component position where it was put', case,
+                     {'segment': seg_id, 'expected_position': [ep, sp], 'value': v, 'reported_at': [[e[7], e[8], e[9]] for e in in_tree][:4]})
+        elif res.ack and full:
+            a = ref_ack.Ack(res.ack)
+            want = '%d' % ep + (':%d' % sp if sp else '')
+            hits = [e for g in a.groups for s in g['sets'] for (sid, e) in s['items'] if sid in ('AK4', 'IK4') and len(e) >= 4 and e[3] == v]
+            if hits and not any(e[0].rstrip(':') == want or e[0] == want for e in hits):
+                ctx.viol('injected-finding:not-at-its-element-position:ack', 'the acknowledgement echoes a wrong value under another element position than the one it was put at', case,
+                         {'segment': seg_id, 'expected_position': want, 'value': v, 'ak4': hits[:4]})
     if res.errors:
         codes = sorted('%s%s' % (e[0][0], e[9]) for e in res.errors)
         shape = [(len(i['groups']), [len(x['sets']) for x in i['groups']]) for i in input_structure(text)] if text[:3] == 'ISA' else None
@@ -369,6 +387,29 @@ def several_findings_on_one_element(rng, doc):
     return d
 
 
+def same_data_element_twice(rng, doc):
+    """two elements of ONE segment that share a data element number (PER03/PER05, CLM06/CLM08, HI01-1/HI02-1 ...) both wrong: two findings that
+    only the position tells apart"""
+    d = faults.clone(doc)
+    by = {}
+    for x in faults.element_sites(d, None):
+        i, node, ep, sp, cur = x
+        if faults._present(cur) and node.usage != 'N' and faults._plain_site(i, node, ep, sp, cur, d):
+            by.setdefault((i, node.data_ele), []).append(x)
+    groups = [v for v in by.values() if len(v) >= 2]
+    if not groups:
+        return None
+    g2 = rng.choice(groups)
+    items = []
+    for n_, (i, node, ep, sp, cur) in enumerate(rng.sample(g2, 2)):
+        dt, mn, mx = gen_doc.dtype_of(node)
+        v = ('Q' if dt in ('AN', 'ID') else '7') * (mx + 1 + n_)        # two different values, both too long
+        faults.set_value(d.recs[i], ep, sp, v)
+        items.append((d.recs[i].node.id, ep, sp, v))
+    d.meta = dict(d.meta, expect_items=items)
+    return d
+
+
 def run(ctx):
     sigs = set()
     n = 0
@@ -409,11 +450,20 @@ def run(ctx):
                 doc = d2
                 kinds.append('composite-and-component-of-it')
                 ctx.count('docs:composite-and-one-of-its-components-wrong')
+        if rng.random() < 0.15:
+            d2 = same_data_element_twice(rng, doc)
+            if d2 is not None:
+                doc = d2
+                kinds.append('same-data-element-twice-in-one-segment')
+                ctx.count('docs:two-elements-of-one-data-element-wrong-in-one-segment')
         if rng.random() < 0.3:
             doc = perturb_envelope(rng, doc)
             kinds.append('envelope')
         text = doc.text()
         case = {'map': e['file'], 'gen': {'entry': e, 'seed': seed, 'kw': kw}, 'faults': kinds, 'charset': doc.charset, 'text': text if len(text) < 150000 else None, 'k': ['c05', ctx.shard, k]}
+        if doc.meta.get('expect_items') and len(text) < 100 * 1000 and all(x in faults.ELE_KINDS or x.startswith(('same-data-element', 'composite-and')) for x in kinds):
+            # (only when nothing else in the document can change how segments are located in the map)
+            case['expect_items'] = [list(x) for x in doc.meta['expect_items']]
         if rng.random() < 0.25:
             lines = text.split('~\n')
             for _ in range(rng.randint(1, 2)):
@@ -424,6 +474,7 @@ def run(ctx):
                 if lines[j] and not lines[j].startswith(('ISA', 'GS', 'GE', 'IEA')):
                     lines[j] = (lines[j] + '*') if rng.random() < 0.7 else (' ' + lines[j])
             text = '~\n'.join(lines)
+            case.pop('expect_items', None)
             kinds.append('reader-level')
             case['faults'] = kinds
             case['text'] = text if len(text) < 150000 else None
@@ -435,6 +486,7 @@ def run(ctx):
             ctx.count('docs:B')
         elif rng.random() < 0.18:
             text, names = mutate.mutate(rng, text)
+            case.pop('expect_items', None)
             case['mutations'] = names
             case['text'] = text if len(text) < 150000 else None
             judge(ctx, text, case, False, sigs, e['file'])
